@@ -326,3 +326,10 @@ class _Sub:
 
 SUBCHECKS = {"convert": _Sub()}
 REPLAY = {"convert": lambda c: explore(c).fails}
+
+# results must not depend on which library calls were made earlier in the process (see mc/order.py)
+from .. import order as _order  # noqa: E402
+
+_ORDER = _order.OrderSub("C07", "lie", lambda k: k.split('/')[-1].startswith('to_') or k.split('/')[-1] == 'from_Matrix')
+SUBCHECKS["order"] = _ORDER
+REPLAY["order"] = _ORDER.replay
